@@ -121,9 +121,16 @@ def analyse(obs: Obs, prog):
             # the callee that performs the edit must be the one the RE-EXECUTED program hands to handle_trace (`gen_fn`): a callee object can carry data
             # (partial_apply(a), a closure, a combinator of those) and that data changes with the arguments.  `request.edit(key, subtrace, argdiffs)`
             # dispatches on subtrace.get_gen_fn() - the callee captured when the OLD trace was made.
-            obs.add({"update": {"C05"}, "static_request": {"C38"}, "regenerate": {"C07"}}[kind], "CALLEE-FRESH", inst + "/callee", mentions(cal, P("gen_fn")),
+            uses_fresh = mentions(cal, P("gen_fn"))
+            obs.add({"update": {"C05"}, "static_request": {"C38"}, "regenerate": {"C07"}}[kind], "CALLEE-FRESH", inst + "/callee", uses_fresh,
                     construct="callee that performs the edit", derived=f"{show(cal)[:160]} - the `gen_fn` argument of handle_trace is unused; the edit runs on subtrace.get_gen_fn()",
                     expected="the re-executed program's callee (gen_fn) edits the sub-trace, so data captured by the callee follows the argument change", where=w)
+            # ... and when the fresh callee IS used, the change tags of the data it carries must not be dropped (Diff.tree_primal(gen_fn) alone makes that data a
+            # closed-over constant of the callee's own incremental run, tagged NoChange although it changed): the handler has to look at those tags
+            tags_seen = mentions_any(("tuple", tuple(t for t, _p in [x for c_, _ in r.returns for x in c_])) if r.returns else C(None), lambda x: is_call(x, "static_check_no_change") and mentions(x, P("gen_fn"))) \
+                or mentions_any(everything, lambda x: is_call(x, "static_check_no_change") and mentions(x, P("gen_fn")))
+            obs.add({"C08"}, "CALLEE-FRESH", inst + "/callee-tags", (not uses_fresh) or tags_seen, construct="change tags of the data carried by the callee",
+                    derived=f"{show(cal)[:160]} - the callee's own leaves are stripped to primals and their change tags never consulted", expected="argdiffs forced to UnknownChange (or the callee revisited) when Diff.static_check_no_change(gen_fn) fails", where=w)
         if kind != "assess":
             obs.add({"C04"}, "KEY-LINEAR", inst + "/key", cal[2][0] == keyt, derived=cal[2][0], expected="fold_in(self.key, self.key_counter)", where=w)
         # ---- record exactly once with own addr and the callee's trace
